@@ -179,4 +179,67 @@ theorem c16_connect_isolation (a : Nat) (evs : List CEv) :
       | discTimeout => simp only [List.filter, cRun, List.foldl_cons]; exact ih _ (haddr _)
   exact key _ rfl
 
+/-! ## service discovery -/
+
+def deciding (m : SMsg) : Bool := match m.kind with | .done | .error | .conn => true | _ => false
+def listed (m : SMsg) : List Nat := match m.kind with | .services ids => ids | _ => []
+
+/-- **C16 (service discovery, isolation).**  Messages for other addresses never complete, fail, delay or change a service
+discovery: its outcome on ANY stream is its outcome on the sub-stream of its own address. -/
+theorem c16_services_isolation (a : Nat) (ms : List SMsg) (acc : List Nat) :
+    getServices a ms acc = getServices a (ms.filter (fun m => m.address = a)) acc := by
+  induction ms generalizing acc with
+  | nil => rfl
+  | cons m ms ih =>
+    by_cases h : m.address = a
+    · simp only [List.filter, h, decide_true]
+      unfold getServices
+      simp only [h, ne_eq, not_true_eq_false, ↓reduceIte]
+      cases m.kind <;> simp [ih]
+    · simp only [List.filter, h, decide_false]
+      rw [← ih]
+      conv => lhs; unfold getServices
+      simp [h]
+
+/-- **C16 (service discovery, outcome).**  On its own messages: nothing deciding ⇒ it waits (timeout); otherwise the FIRST
+done / error / connection-change decides — `done` returns exactly the services listed before it, in order; an error or a
+connection change fails the call whatever was listed before. -/
+theorem c16_services_outcome (a : Nat) (ms : List SMsg) (h : ∀ m ∈ ms, m.address = a) (acc : List Nat) :
+    getServices a ms acc =
+      match ms.find? deciding with
+      | none => .timeout
+      | some m => match m.kind with
+        | .done => .services (acc ++ (ms.takeWhile (fun m => !deciding m)).flatMap listed)
+        | .error => .gattError
+        | .conn => .dropped
+        | _ => .timeout := by
+  induction ms generalizing acc with
+  | nil => rfl
+  | cons m ms ih =>
+    have hm : m.address = a := h m (by simp)
+    have ih' := fun acc => ih (fun x hx => h x (by simp [hx])) acc
+    unfold getServices
+    simp only [hm, ne_eq, not_true_eq_false, ↓reduceIte]
+    cases hk : m.kind with
+    | services ids =>
+      simp only [List.find?, deciding, hk, List.takeWhile, Bool.not_false, List.flatMap_cons, listed]
+      rw [ih']
+      cases hf : ms.find? deciding with
+      | none => rfl
+      | some m' => cases m'.kind <;> simp [List.append_assoc, deciding]
+    | other =>
+      simp only [List.find?, deciding, hk, List.takeWhile, Bool.not_false, List.flatMap_cons, listed]
+      rw [ih']
+      cases hf : ms.find? deciding with
+      | none => rfl
+      | some m' => cases m'.kind <;> simp [deciding]
+    | done => simp [List.find?, deciding, hk, List.takeWhile]
+    | error => simp [List.find?, deciding, hk]
+    | conn => simp [List.find?, deciding, hk]
+
+example : getServices 1 [⟨.services [3, 4], 1⟩, ⟨.done, 2⟩, ⟨.error, 2⟩, ⟨.services [], 1⟩, ⟨.services [9], 2⟩, ⟨.services [5], 1⟩, ⟨.done, 1⟩,
+    ⟨.conn, 1⟩] [] = .services [3, 4, 5] := by decide
+example : getServices 1 [⟨.services [3], 1⟩, ⟨.conn, 1⟩, ⟨.done, 1⟩] [] = .dropped ∧
+    getServices 1 [⟨.services [3], 1⟩, ⟨.error, 1⟩, ⟨.done, 1⟩] [] = .gattError ∧ getServices 1 [⟨.services [3], 1⟩, ⟨.done, 2⟩] [] = .timeout := by decide
+
 end Esp.C16
